@@ -306,7 +306,18 @@ fn fam_later_block(ctx: &CaseCtx, cov: &mut Cov) -> CaseOut {
             let b = &blocks[bi];
             let lz = FilterSpec { id: 0x21, props: vec![xz::lzma2_dict_prop_for(b.plain.len() as u64)] };
             let foreign = FilterSpec { id, props: if id == 0x03 { vec![rng.byte()] } else { vec![] } };
-            let chain = match rng.below(4) {
+            // R20-C18: the filter resolved for the previous block reused when the property bytes
+            // are equal - so one variant copies the previous block's property bytes
+            let prev_props = blocks[bi - 1].filters.last().map(|f| f.props.clone()).unwrap_or_default();
+            let chain = match rng.below(6) {
+                4 => {
+                    cov.name("later_block_foreign_filter_with_the_previous_blocks_property_bytes", 1);
+                    vec![FilterSpec { id, props: prev_props }]
+                }
+                5 => {
+                    cov.name("later_block_foreign_filter_with_the_previous_blocks_property_bytes", 1);
+                    vec![FilterSpec { id, props: prev_props.clone() }, FilterSpec { id: 0x21, props: prev_props }]
+                }
                 0 => vec![foreign],
                 1 => vec![foreign, lz],
                 2 => vec![foreign.clone(), foreign, lz],
@@ -371,7 +382,7 @@ pub fn monitor(tier: Tier) -> Monitor {
     Monitor {
         id: "C18",
         level: "exploration",
-        rule: "cases = well-formed files using one feature outside the supported subset: ALL 65536 values of the two stream-flag bytes (same in header and footer, CRC32s repaired, blocks carrying the check field the low nibble announces) other than the check IDs proper, every combination of the reserved block-flag bits; each of the 16 check IDs x 0-3 blocks (digest correct for SHA-256), delta / six BCJ filters + LZMA2 written by liblzma, unknown filter IDs (every ID 0x00-0x5F, random large ones, and IDs that coincide with 0x21 in their low 8 / 16 / 32 bits), each reserved bit of block flags and stream flags (header = footer, CRCs repaired), two concatenated streams with 0-8192 padding bytes, stream padding of 4-16384 bytes, the unsupported feature placed in a LATER block of a multi-block file (foreign filter chains of 1-4 filters, reserved block-flag bits, a SHA-256 file whose last block is empty); liblzma confirms well-formedness where it can; expected Err; distinct by hash of the file",
+        rule: "cases = well-formed files using one feature outside the supported subset: ALL 65536 values of the two stream-flag bytes (same in header and footer, CRC32s repaired, blocks carrying the check field the low nibble announces) other than the check IDs proper, every combination of the reserved block-flag bits; each of the 16 check IDs x 0-3 blocks (digest correct for SHA-256), delta / six BCJ filters + LZMA2 written by liblzma, unknown filter IDs (every ID 0x00-0x5F, random large ones, and IDs that coincide with 0x21 in their low 8 / 16 / 32 bits), each reserved bit of block flags and stream flags (header = footer, CRCs repaired), two concatenated streams with 0-8192 padding bytes, stream padding of 4-16384 bytes, the unsupported feature placed in a LATER block of a multi-block file (foreign filter chains of 1-4 filters, also carrying exactly the property bytes of the block before, reserved block-flag bits, a SHA-256 file whose last block is empty); liblzma confirms well-formedness where it can; expected Err; distinct by hash of the file",
         assumptions: vec![
             "a SHA-256 file with zero blocks has nothing to verify: either verdict accepted there, success must deliver nothing (counted as lenient.sha256_zero_blocks)".into(),
             "unknown filter IDs cannot be confirmed by liblzma (it refuses them too)".into(),
